@@ -140,6 +140,64 @@ def _(line):
     return _subs(line, r'\breturn Some\(([^;]+)\);', 'return None;') + _subs(line, r'=> Some\(([^,]+)\),$', '=> None,')
 
 
+@op('cond-const')
+def _(line):
+    m = re.match(r'^(\s*(?:\} else )?(?:if|while) )(?!let )(.+?)( \{\s*)$', line)
+    return [m.group(1) + 'true' + m.group(3), m.group(1) + 'false' + m.group(3)] if m else []
+
+
+@op('iter-rev')
+def _(line):
+    return _subs(line, r'\.iter\(\)(?!\.rev)', '.iter().rev()', 2) + _subs(line, r'\.enumerate\(\)', '.enumerate().skip(1)', 1) + _subs(line, r'\.values\(\)', '.values().skip(1)', 1)
+
+
+@op('pred-flip')
+def _(line):
+    out = []
+    for a, b in (('is_some', 'is_none'), ('is_ok', 'is_err'), ('contains', 'insert'), ('is_orphan', 'is_leaf'), ('in_degree', 'out_degree'), ('degree', 'out_degree'), ('source', 'target'),
+                 ('find_adjacent', 'find_outbound'), ('get_adjacent', 'get_outbound'), ('len_outbound', 'len_inbound'), ('preorder', 'postorder'), ('forward', 'backward')):
+        out += _subs(line, r'\.%s\(' % a, '.%s(' % b, 2)
+        out += _subs(line, r'\.%s\(' % b, '.%s(' % a, 2)
+    return out
+
+
+@op('plus-minus')
+def _(line):
+    if '->' in line or 'where' in line or ': ' in line and '+' in line and ('Clone' in line or 'Hash' in line or 'Send' in line):
+        return []
+    return _subs(line, r' \+ (?=[\w(])', ' - ', 2) + _subs(line, r' - (?=[\w(])', ' + ', 2)
+
+
+@op('arg-swap2')
+def _(line):
+    out = []
+    for m in list(re.finditer(r'(\w+)\((&?\w+(?:\.\w+\(\))?), (&?\w+(?:\.\w+\(\))?)(?=[,)])', line))[:3]:
+        if m.group(1) in ('fn', 'Edge', 'Some', 'Ok', 'Err') or m.group(2) == m.group(3) or 'fn ' in line or '|' in line:
+            continue
+        out.append(line[:m.start(2)] + m.group(3) + ', ' + m.group(2) + line[m.end(3):])
+    return out
+
+
+@op('del-any')
+def _(line):
+    if re.match(r'^\s*(?!let |return|break|continue|if |for |while |match |\}|//|pub |fn |use )[\w\.\(\)&\*\[\]:]+(\(.*\)| [+\-]?= .*);\s*$', line):
+        return [re.match(r'^\s*', line).group(0) + '();' + ('\n' if line.endswith('\n') else '')]
+    return []
+
+
+@op('lit-bool')
+def _(line):
+    if 'return' in line or '=>' in line:
+        return []
+    return _subs(line, r'\btrue\b', 'false', 2) + _subs(line, r'\bfalse\b', 'true', 2)
+
+
+@op('deref-clone')
+def _(line):
+    # handle confusion: a clone of a handle vs the other handle in scope; key of one thing vs another
+    return _subs(line, r'\bedge\.1\b', 'edge.0', 2) + _subs(line, r'\bedge\.0\b', 'edge.1', 2) + _subs(line, r'\bnode\.clone\(\)', 'self.root.clone()', 1) + _subs(line, r'\bself\.root\b', 'node', 1)
+
+
 def code_lines(path):
     """(lineno, text) of mutable code lines: not comments, not doc comments, not attributes, not inside #[cfg(test)]"""
     out = []
